@@ -374,7 +374,7 @@ def check_state(s: State, viol, op):
         return sum(s.rows[i][1].get(x, 0.0) * sched[j, t] * ph[j] for j, x in enumerate(s.stations))
 
     T = sched.shape[1]
-    tsets = [None, [0], [2], [0, 2], [1, 2], [0, 1, 2]]
+    tsets = [None, [0], [2], [0, 2], [1, 2], [0, 1, 2], [0, 0, 2], [1, 1]]
     subsets = [None]
     for k in range(1, len(names) + 1):
         for perm in itertools.permutations(names, k):
@@ -485,13 +485,18 @@ def space(tier, seed):
             items.append({"order": order, "root": [op], "depth": b["depth_full"] - 1, "full": True})
         for op in ops_for(root, REDUCED, False):
             items.append({"order": order, "root": [op], "depth": b["depth_reduced"] - 1, "full": False})
+        # start from non-initial states too: tables that already hold unnamed / named constraints
+        if len(order) == 3:
+            # (named ones use a name outside the alphabet, so the search stays within ONE duplicate of a name)
+            for pre in ([["add", 0, None], ["add", 6, None], ["add", 3, None]], [["add", 14, "x1"], ["add", 6, None]], [["add", 4, None], ["add", 0, "x1"], ["add", 12, None]]):
+                items.append({"order": order, "root": pre, "depth": 2, "full": False})
     return items
 
 
 def run(item):
     acc = Acc()
     root, v0 = exec_ops(item["order"], item["root"])
-    acc.transitions += 1
+    acc.transitions += len(item["root"])
     for sig, what, o, e in v0:
         acc.violation(sig, what, {"order": item["order"], "ops": item["root"]}, o, e)
     if not v0:
